@@ -275,7 +275,8 @@ def finish(prop_id, tier, seed, mod, plan, reports, t0, relock, repo_root):
             if reproduced:
                 undecided.remove(n)
                 violations.append((n, path, True))
-    n_obs = len(obs)
+    n_known = sum(1 for o in obs if o["status"] == "known")
+    n_obs = len(obs) - n_known           # obligations expected to hold (known findings are listed apart)
     n_dis = sum(1 for o in obs if o["status"] == "discharged")
     stats = {}
     for r in reports:
@@ -299,6 +300,7 @@ def finish(prop_id, tier, seed, mod, plan, reports, t0, relock, repo_root):
     cov = {
         "obligations": n_obs, "discharged": n_dis,
         "distinct_obligation_names": len(groups),
+        "obligations_failing_only_inside_known_findings": n_known,
         "checker_cmd": f"./check {prop_id} --tier {tier}",
         "trusted_base": trusted,
         "functions_under_contract": functions,
@@ -326,8 +328,9 @@ def finish(prop_id, tier, seed, mod, plan, reports, t0, relock, repo_root):
     if plan.get("controls") is not None:
         cov["negative_controls"] = plan["controls"]
     if not os.environ.get("PYVC_NO_EVIDENCE"):
-        os.makedirs(os.path.join(VERIF, "evidence"), exist_ok=True)
-        with open(os.path.join(VERIF, "evidence", f"{prop_id}.json"), "w") as f:
+        evdir = os.environ.get("PYVC_EVIDENCE_DIR", os.path.join(VERIF, "evidence"))
+        os.makedirs(evdir, exist_ok=True)
+        with open(os.path.join(evdir, f"{prop_id}.json"), "w") as f:
             json.dump(ev, f, indent=1, default=str)
 
     for fid, n in sorted(known_hit.items()):
@@ -376,6 +379,10 @@ def main(argv=None):
     ap.add_argument("--jobs", type=int, default=None)
     a = ap.parse_args(argv)
     seed = int(os.environ.get("VERIF_SEED", "0"))
+    if os.path.realpath(a.repo) != os.path.realpath("/repo") and "PYVC_EVIDENCE_DIR" not in os.environ:
+        # a scratch copy (negative control, seeded change): its evidence must not overwrite the
+        # evidence of /repo itself
+        os.environ["PYVC_EVIDENCE_DIR"] = os.path.join(VERIF, "scratch", "evidence")
     try:
         rc = run_property(a.prop, a.tier, seed, a.repo, a.relock, a.jobs)
     except Exception:
